@@ -44,6 +44,8 @@ RULES = {
     "C03-X1": "an index translated to the numbering of the boundary surface is never used to index a container of the volume mesh",
     "C03-Q1": "a boundary face is written with the vertex order of the volume face; it is written reversed only under a test that involves the "
               "cell incident to the face",
+    "C03-Q2": "the vertex order of every face of VolumeMesh.boundary_mesh depends on the vertex positions (a mirror image has the same "
+              "combinatorics and the opposite outside)",
     "C03-D1": "boundary-connectivity queries translate their argument with m2b_<kind> and every result with b2m_<kind of the result>",
 }
 
@@ -67,6 +69,7 @@ def run(ctx):
     _guard(ctx, "C03", f1_face_completion)
     _guard(ctx, "C03", x1_index_spaces)
     _guard(ctx, "C03", q1_orientation)
+    _guard(ctx, "C03", q2_geometry)
 
 
 def _appends_to(*chain):
@@ -962,7 +965,17 @@ def q1_orientation(ctx):
                 if not more:
                     break
                 deps += more
-            about_cell = any(isinstance(n, ast.Attribute) and n.attr in CELL_WORDS for t in deps for n in ast.walk(t))
+            # the cell list counts only when one cell is looked up in it (`cells[iC]`), not when it is read as a whole
+            whole = {id(n.args[0]) for t in deps for n in ast.walk(t) if isinstance(n, ast.Call) and n.args
+                     and isinstance(n.args[0], ast.Attribute) and n.args[0].attr == "cells"}
+            about_cell = any(isinstance(n, ast.Attribute) and n.attr in CELL_WORDS and id(n) not in whole for t in deps for n in ast.walk(t))
+            aggregate = [n for t in deps for n in ast.walk(t) if isinstance(n, ast.Call)
+                         and (n.func.attr if isinstance(n.func, ast.Attribute) else n.func.id if isinstance(n.func, ast.Name) else "")
+                         in ("mean", "average", "median", "sum", "centroid", "barycenter")
+                         and any(isinstance(m, ast.Attribute) and m.attr in ("cells", "vertices") for a in n.args for m in ast.walk(a))]
+            if not about_cell and aggregate and bad is None:
+                bad = (e, order, True)
+                continue
             opaque = any((isinstance(n, ast.Name) and n.id.startswith(("$mu", "$after", "$u", "$gen"))) or
                          (isinstance(n, ast.Attribute) and isinstance(n.value, ast.Name) and n.value.id in ("np", "numpy"))
                          for t in deps for n in ast.walk(t))
@@ -983,6 +996,60 @@ def q1_orientation(ctx):
         else:
             ctx.ok("C03-Q1", site, f"{fn.name}: {n_read} face write(s) read, none reversed without looking at the incident cell")
 
+
+
+# ---------------------------------------------------------------------------- Q2
+def q2_geometry(ctx):
+    """VolumeMesh.boundary_mesh must be outward for ANY cell vertex order. Mirroring all vertex positions leaves every combinatorial
+    datum (cells, faces, incidences, local indices) unchanged but swaps inside and outside, so the vertex order of a written boundary
+    face must depend (through its value, the tests it is written under, or the containers those read) on the vertex positions."""
+    COMB = ("cells", "face_to_cells", "other_face_side", "cell_to_face", "cell_to_cell", "in_cell_face_index", "face_id", "keyify",
+            "len", "range", "enumerate", "zip", "tuple", "list", "sorted", "set", "append", "get", "int", "reversed", "index",
+            "$seq", "$range", "$keys")
+    fnv = ctx.repo.func(VOL, BCONN + ".__init__")
+    xv = q.summarise(ctx.repo, VOL, BCONN, fnv)
+    site = ctx.site(VOL, fnv)
+    writes = []
+    for e in xv.effects:
+        if e.kind == "setitem" and isinstance(e.base, ast.Attribute) and e.base.attr == "faces" and sx.is_special(e.base.value, "$obj"):
+            writes.append((e, xv.expand(e.value)))
+        elif e.kind == "call" and e.method == "append" and isinstance(e.base, ast.Attribute) and e.base.attr == "faces" \
+                and sx.is_special(e.base.value, "$obj") and len(e.args) == 1:
+            writes.append((e, xv.expand(e.args[0])))
+    if not writes:
+        ctx.undecided("C03-Q2", site, "no write to the faces of the extracted boundary surface could be read", "")
+        return
+    n = 0
+    for e, v in writes:
+        deps = [v] + [xv.expand(t) for t, _ in e.conds]
+        for _ in range(4):
+            keys = {au.norm(k) for t in deps for k in ast.walk(t) if isinstance(k, (ast.Call, ast.Name, ast.Attribute, ast.Subscript))}
+            more = [xv.expand(t) for s_ in xv.effects if s_.kind in ("setitem", "aug") and au.norm(s_.base) in keys
+                    for t in (s_.value, s_.key) if isinstance(t, ast.AST)]
+            more = [t for t in more if au.norm(t) not in {au.norm(d) for d in deps}]
+            if not more:
+                break
+            deps += more
+        nodes = [k for t in deps for k in ast.walk(t)]
+        geometric = any(isinstance(k, ast.Attribute) and k.attr == "vertices" for k in nodes)
+        if geometric:
+            n += 1
+            continue
+        opaque = any(isinstance(k, ast.Name) and k.id.startswith(("$mu", "$after", "$u", "$gen")) for k in nodes)
+        foreign = [k for k in nodes if isinstance(k, ast.Call) and
+                   (k.func.attr if isinstance(k.func, ast.Attribute) else k.func.id if isinstance(k.func, ast.Name) else "?") not in COMB]
+        if opaque or foreign:
+            why = sorted({k.id for k in nodes if isinstance(k, ast.Name) and k.id.startswith("$")} | {au.norm(k.func) for k in foreign})
+            ctx.undecided("C03-Q2", ctx.site(VOL, e.fn, e.node),
+                          "the vertex order of a boundary face is computed through a value that could not be traced to the vertex positions", ", ".join(why)[:300])
+            return
+        ctx.fail("C03-Q2", ctx.site(VOL, e.fn, e.node),
+                 "the vertex order of a face of VolumeMesh.boundary_mesh is decided from combinatorial data only "
+                 "(no read of the vertex positions reaches the value or the tests it is written under)",
+                 "a mirror image of the mesh has the same cells, faces and incidences but the opposite outside: for cells stored "
+                 "with negative vertex order the face comes out oriented inwards")
+        return
+    ctx.ok("C03-Q2", site, f"{n} boundary face write(s): vertex order depends on the vertex positions")
 
 
 # ----------------------------------------------------------------------- generic families (msa/rules/generic.py)
